@@ -691,7 +691,7 @@ func (ex *Exec) enterLoop(fr *Frame, st *State, li *loopInfo) *State {
 			// families of the preserved types that the body writes explicitly are havocked below
 			for n := range modHeap {
 				parts := strings.SplitN(n, "|", 3)
-				if !(strings.HasPrefix(n, "G|ghost") || (parts[0] == "H" && but[parts[1]])) {
+				if !(strings.HasPrefix(n, "G|ghost") || ((parts[0] == "H" || parts[0] == "E") && (but[parts[1]] || but[strings.TrimPrefix(parts[1], "*")]))) {
 					delete(modHeap, n)
 				}
 			}
